@@ -297,6 +297,12 @@ func c01Call(run *ev.Run, srv *svc.Server, cs *svc.ClientSet, kind svc.Kind, key
 			break
 		}
 	}
+	for i, e := range cl.PostEnd {
+		if e == nil {
+			run.Violation(key+"/receive-after-end", fmt.Sprintf("Receive call %d after the end of the stream returned a message", i+1), detail(""))
+			break
+		}
+	}
 	if len(cl.SendErrs) > 0 {
 		run.Violation(key+"/send-error", "Send failed on a fault-free call: "+errStr(cl.SendErrs[0]), detail(""))
 	}
